@@ -40,6 +40,10 @@ func groupsFor(t tables.Table) [][]int {
 		return [][]int{{1, 5}}
 	case "Lag":
 		return [][]int{{2}, {4}}
+	case "Storage":
+		if len(t.Params) == 3 { // the two regular tables together, and the descending table (added in build) shared by all cells
+			return [][]int{{0, 1}, {2}}
+		}
 	}
 	all := make([]int, len(t.Params))
 	for i := range all {
@@ -185,6 +189,11 @@ func (e *enum) CrashSig(i int64, tail string) (string, string) {
 func build(tier string) *enum {
 	e := &enum{}
 	for _, t := range tables.All() {
+		if t.Model == "Storage" {
+			// a table tabulated from full to empty (descending volumes): the kernel treats it deterministically, and a
+			// shared parameter set must stay read-only whatever the table looks like
+			t.Params = append(append([][]float64{}, t.Params...), tables.StorageParams(86400, []float64{10, 5, 0}, []float64{3e6, 1e6, 0}, []float64{0, 2e5, 4e5}, []float64{0, 0, 0}, []float64{0, 20, 80}))
+		}
 		for _, g := range groupsFor(t) {
 			e.cases = append(e.cases, kase{t, g, 2, -1, 2, 2, 0}, kase{t, g, 2, -1, 1, 1, 0})
 			if tier == "thorough" {
